@@ -74,10 +74,10 @@ TEXTS.update({
            TRUST + " /debug, /metrics and the external /player proxy are excluded; upload bodies: declared sizes 16 MiB..4 GiB and table counts above 10^6 are cut (known finding KF-C08-rx-declared-counts); processes run under a 16 GiB address-space limit.", "DESIGN.md §7 C08, §13, §14.2"),
  "C17": _t("rapid-generated upload interleavings with an invariant evaluated after every upload (hook VerifQuiesce as observation point); bounded enumeration of all merges for 2x4 in the thorough tier",
            EXPL_NOTE + "Schedules in order, with gaps, duplicates, shuffled, late tracks, windows smaller and larger than the run, plus a catch-up suffix for bounded progress.",
-           TRUST + " verif_hooks.go (build tag verif); unshifted uploads only; two open known findings (stragglers, fast track deletes listed segments).", "DESIGN.md §7 C17"),
+           TRUST + " verif_hooks.go (build tag verif); histories with uploaded numbers kept, plus in-order renumbered channels (TestC17Renumbered); two open known findings (stragglers, fast track deletes listed segments).", "DESIGN.md §7 C17"),
  "C16": _t("rapid-generated ingest-session configurations and REST operation histories (step/info/delete, deletion during the init phase) against scripted recording receivers; differential with livesim2's own GET responses and the reference live-edge model",
            EXPL_NOTE + "The request log of every session is judged after every operation (order, numbering, headers, byte equality, lmsg, termination).",
-           TRUST + " Step mode only: wall-clock pacing, chunked low-latency upload and failing receivers are not decided here.", "DESIGN.md §7 C16"),
+           TRUST + " Step mode for the histories (incl. chunked low-latency upload and failing receivers); wall-clock pacing and concurrent creation of sessions are decided by two further generated tests on short sessions.", "DESIGN.md §7 C16"),
  "C19": _t("rapid-generated channel/track sets uploaded concurrently (barriers) on fresh receivers under the race detector; differential with a sequential order of the same uploads; repeated-interleaving stress",
            EXPL_NOTE + "Race detector plus state oracles (one channel object, all tracks registered, master track, stored bytes, order-independent part of the final MPD).",
            TRUST + " Schedules are sampled by the Go scheduler, not owned: absence of races is not established.", "DESIGN.md §7 C19"),
